@@ -121,10 +121,25 @@ def _res_check(res, op, case, o, expS, exp_strand, exp_parent_chain, N, want_dis
     return R
 
 
+def _snap(L):
+    return (type(L).__name__, tuple((b.start, b.end, lib.SYM[b.strand]) for b in L.blocks), lib.loc_strand(L), lib.parent_chain(L.parent), len(L), L.start, L.end)
+
+
 def check_pair(res, N, b1, s1, k1, b2, s2, k2, derived=None):
     par = parents(N)
     A = lib.mk_loc(b1, s1, par[k1])
     B = lib.mk_loc(b2, s2, par[k2])
+    snapA, snapB = _snap(A), _snap(B)
+    _check_pair_ops(res, N, A, B, b1, s1, k1, b2, s2, k2, derived)
+    # operations never change their operands (all of the above ran on the SAME two objects, in sequence)
+    res.trans()
+    if _snap(A) != snapA or _snap(B) != snapB:
+        res.deviation("operand-unchanged", dict(op="operands", kind="pair", N=N, A=[list(b) for b in b1], As=s1, Ak=k1, B=[list(b) for b in b2], Bs=s2, Bk=k2),
+                      [_snap(A)[1], _snap(B)[1]], [snapA[1], snapB[1]], sig="operand-mutated")
+
+
+def _check_pair_ops(res, N, A, B, b1, s1, k1, b2, s2, k2, derived=None):
+    par = parents(N)
     base = dict(kind="pair", N=N, A=[list(b) for b in b1], As=s1, Ak=k1, B=[list(b) for b in b2], Bs=s2, Bk=k2)
     pm = pmatch(k1, k2)
     a_disj, b_disj = M.is_disjoint(b1), M.is_disjoint(b2)
@@ -357,13 +372,13 @@ def check_unary(res, mode, N, bl, strand, pk):
     for ns in "+-.":
         o = lib.outcome(L.reset_strand, lib.STRAND[ns])
         res.trans()
-        if o[0] != "ok" or sorted(lib.loc_blocks(o[1])) != sorted(bl) or lib.loc_strand(o[1]) != ns or lib.parent_chain(o[1].parent) != pc:
+        if o[0] != "ok" or sorted(lib.loc_blocks(o[1])) != sorted(bl) or lib.loc_strand(o[1]) != ns or lib.parent_chain(o[1].parent) != pc or lib.check_wellformed(o[1]):
             res.deviation("reset_strand", dict(op="reset_strand", ns=ns, **base), lib.canon_loc(o[1]) if o[0] == "ok" else o[1], [sorted(bl), ns], sig="reset_strand")
     for nk in ("none", "idB", "seq"):
         o = lib.outcome(L.reset_parent, par[nk])
         res.trans()
         epc = lib.parent_chain(par[nk])
-        if o[0] != "ok" or sorted(lib.loc_blocks(o[1])) != sorted(bl) or lib.loc_strand(o[1]) != strand or lib.parent_chain(o[1].parent) != epc:
+        if o[0] != "ok" or sorted(lib.loc_blocks(o[1])) != sorted(bl) or lib.loc_strand(o[1]) != strand or lib.parent_chain(o[1].parent) != epc or lib.check_wellformed(o[1]):
             res.deviation("reset_parent", dict(op="reset_parent", nk=nk, **base), lib.canon_loc(o[1]) if o[0] == "ok" else o[1], [sorted(bl), epc], sig="reset_parent")
     # scan_windows
     if mode == "disjoint":
